@@ -2,7 +2,7 @@
 # tools/run_all.sh <tier> : run every registered check serially, one summary line each
 TIER=${1:-quick}
 cd "$(dirname "$0")/.."
-for id in C01 C02 C03 C04 C05 C06 C07 C08 C09 C10 C11 C12 C13 C14 C15 C16 C17 C18 C19 C20; do
+for id in ${IDS:-C01 C02 C03 C04 C05 C06 C07 C08 C09 C10 C11 C12 C13 C14 C15 C16 C17 C18 C19 C20}; do
   s=$(date +%s)
   out=$(VERIF_PROGRESS=1 ./vcheck $id --tier $TIER 2>&1 | grep -v "^LOG\|^main\|Warning")
   rc=$?
